@@ -22,7 +22,7 @@ import (
 // round trip with values of several JSON shapes (the main world uses string values only). Values are
 // compared by their JSON text, so a number that comes back as float64 inside an `any` is still equal.
 
-var valShapes = []string{"struct", "map", "slice", "any", "ptr"}
+var valShapes = []string{"struct", "map", "slice", "any", "ptr", "nested"}
 
 type vEnt[K comparable] struct {
 	k K
@@ -242,6 +242,8 @@ func runKVVKeyed[K comparable](p *Plan, st *RunStats, o *Oracle, d *Dom[K]) {
 		runKVV[K, []int](p, st, o, d, mkSlice, func() maps.Map[K, []int] { return newKVV[K, []int](kind, order, d.Cmp) })
 	case "vals:ptr":
 		runKVV[K, *Item](p, st, o, d, mkPtr, func() maps.Map[K, *Item] { return newKVV[K, *Item](kind, order, d.Cmp) })
+	case "vals:nested": // containers as values: the outer ToJSON runs the inner ones
+		runKVV[K, any](p, st, o, d, mkNested, func() maps.Map[K, any] { return newKVV[K, any](kind, order, d.Cmp) })
 	default:
 		runKVV[K, any](p, st, o, d, mkAny, func() maps.Map[K, any] { return newKVV[K, any](kind, order, d.Cmp) })
 	}
@@ -288,10 +290,11 @@ func execVals(p *Plan, st *RunStats) *Violation {
 	o := NewOracle("C11", "C11")
 	o.Kind = p.Cfg.Kind
 	n := max(p.Cfg.Dom, 2)
+	curPool = p.Cfg.Pool
 	if p.Cfg.Elem == "string" {
-		runKVVKeyed(p, st, o, strDom(n, p.Cfg.Cmp, int(p.Cfg.MapSeed%uint64(len(specialStrings)))))
+		runKVVKeyed(p, st, o, strDom(n, p.Cfg.Cmp, int(p.Cfg.MapSeed%uint64(len(strPool())))))
 	} else {
-		runKVVKeyed(p, st, o, intDom(n, p.Cfg.Cmp, int(p.Cfg.MapSeed>>16%uint64(len(specialInts)))))
+		runKVVKeyed(p, st, o, intDom(n, p.Cfg.Cmp, int(p.Cfg.MapSeed>>16%uint64(len(intPool())))))
 	}
 	st.Steps = stepCount - start
 	return o.V
